@@ -363,8 +363,10 @@ struct C04 {
   }
 };
 
-void case_impl(Ctx &c, bool wide) {
+void case_impl(Ctx &c, bool wide, bool renumbered = false) {
   C04 x(c); x.build(wide);
+  // mode after-lss-node-id-change: an LSS master has moved the node to another node id (configure, store, NMT reset communication) before the requests arrive
+  if (renumbered) { uint8_t nid = (uint8_t)(1 + c.t.below(127)); if (nid == x.s.nodeid) nid = (uint8_t)(nid % 127 + 1); x.w.lss_renumber(nid); c.cls("node-id-changed-through-lss-before-the-requests"); }
   int nsrv = CO_SSDO_N;
   bool opmode = c.t.coin();
   if (opmode) { x.s.rx(Frame::mk(0, 2, {1, 0})); x.s.clear_tx(); VLOG(c, "NMT start: OPERATIONAL"); }
@@ -461,6 +463,7 @@ void case_impl(Ctx &c, bool wide) {
 
 void one_case(Ctx &c) { case_impl(c, false); }
 void wide_case(Ctx &c) { case_impl(c, true); }
+void renum_case(Ctx &c) { case_impl(c, false, true); }
 
 Registrar reg(Prop{
     "C04",
@@ -468,10 +471,11 @@ Registrar reg(Prop{
     "histories of up to 40 (60) request frames per case on one server (two in build n2, interleaved) over the full SDO command alphabet: canonical initiates of all five kinds with announced sizes around the object size, segments with right/wrong toggle, block segments/acknowledges/end frames, client aborts, unknown commands (ccs 7), commands with reserved bits, random bytes; "
     "multiplexers from existing / absent sub-index / absent index / the object of the open transfer; NMT state toggled between PRE-OPERATIONAL and OPERATIONAL. "
     "Oracle: per-request validity predicate from a protocol-state model per server (response count, responder id, multiplexer, listed abort codes, unchanged storage snapshot on refusal, named object's data/size on positive initiate responses). "
-    "Mode wide-dictionary: the same with additional objects at A100h and FFFEh (the dictionary spans more than 7FFFh indices). Mode pdo-mapping-verdicts: the PDO parameter histories and rule model of C14 (accept/refuse verdict, 0604 0041h / 0604 0042h where the reason is named, refused write changes nothing). Mode sync-range-verdicts: the 1005h/1006h write histories and reference model of C16 (range verdict 0609 0030h exactly where the value cannot be accepted, value kept, and a refused write changes nothing - the running SYNC producer keeps its schedule). "
+    "Mode wide-dictionary: the same with additional objects at A100h and FFFEh (the dictionary spans more than 7FFFh indices). Mode after-lss-node-id-change: an LSS master has given the node another node id (configure node id, store, NMT reset communication) before the requests arrive - 'an enabled server' then listens and answers on the identifiers of the new id. Mode pdo-mapping-verdicts: the PDO parameter histories and rule model of C14 (accept/refuse verdict, 0604 0041h / 0604 0042h where the reason is named, refused write changes nothing). Mode sync-range-verdicts: the 1005h/1006h write histories and reference model of C16 (range verdict 0609 0030h exactly where the value cannot be accepted, value kept, and a refused write changes nothing - the running SYNC producer keeps its schedule). "
     "Non-trivial: the history contains an initiate while another transfer was open, or >= 3 different verdict classes (pdo-mapping-verdicts: >= 1 accepted and >= 1 refused write and an activation after them). Distinct = distinct decoded choice sequence.",
     {Mode{"random", one_case, false, 600000, 17000000, 0, 0, 260, 400},
      Mode{"wide-dictionary", wide_case, false, 100000, 3000000, 0, 0, 260, 400},
+     Mode{"after-lss-node-id-change", renum_case, false, 100000, 3000000, 0, 0, 260, 400},
      Mode{"pdo-mapping-verdicts", vf::c14_case, false, 150000, 3000000, 0, 0, 300, 600},
      Mode{"sync-range-verdicts", vf::c16_case, false, 150000, 3000000, 0, 0, 260, 500}},
     {"the mapping abort codes 0604 0041h/0042h need PDO objects: they are judged by a second mode that runs C14's case generator and rule model (histories of SDO writes to 14xx/16xx/18xx/1Axx) under this property as well",
